@@ -96,7 +96,13 @@ def generate(rng, tier):
             else:
                 val = [gen.value_token(rng, o.ty)]
             parts = p.split("|")
-            text = piece + (b"" if piece.endswith(b"\n") else b" ") + parts[-1].encode() + b" = " + b" ".join(val) + b"\n"
+            item = [parts[-1].encode(), b"="] + val
+            if rng.random() < 0.5:
+                # more comments INSIDE the assignment (after the name, after '=', after '{', between values): transparent, and
+                # the comment in front of the option stays its annotation
+                for _j in range(rng.randint(1, 3)):
+                    item.insert(rng.randint(1, len(item)), rng.choice([b"/* in */", b"/**/", b"# in\n", b"// in\n", b"/* two\nlines */"]))
+            text = piece + (b"" if piece.endswith(b"\n") else b" ") + b" ".join(item) + b"\n"
             for i in range(len(parts) - 2, -1, -1):
                 so = decl["|".join(parts[:i + 1])]
                 text = parts[i].encode() + (b' "t 1"' if so.flags & gen.TITLE else b"") + b" {\n" + text + b"}\n"
